@@ -11,6 +11,7 @@
  * Ops:  cb8 0|1 | viewonly id 0|1 | send id blob | close id | pub blob | pub8 blob fb|null
  *       csend id blob | csend8 id blob | fsend id blob [eof] | cuts id s|c a,b,c
  *       kill id (peer closes, server not pumped) | senddie id blob (send, then close at once)
+ *       stall id (peer stops reading, pipe made tiny: large writes fail half-way)
  * One observation line per op:  <events> | <closed ids> | <per-connection clipboard state>
  * Server output is canonicalised (provide payloads are inflated here; compressed bytes depend on
  * the zlib version and are never compared).
@@ -37,6 +38,7 @@ typedef struct {
   int lfd;               /* client library's fd */
   int ffd;               /* fsrv: harness end (fake server) */
   int dropped;           /* HandleRFBServerMessage returned FALSE, client closed */
+  int stalled;           /* reference peer stopped reading and the server's send buffer is tiny */
   vh_buf fout;           /* fsrv: bytes written by the client library */
 } conn_t;
 static conn_t C[MAXC];
@@ -244,7 +246,7 @@ static void pump(void) {
     if (rfbProcessEvents(scr, 0)) busy = 1;
     for (i = 0; i < MAXC; i++) {
       conn_t *c = &C[i];
-      if (c->kind == K_RAW || c->kind == K_RAWPRE) { if (c->sc.peer >= 0) drain_fd(c->sc.peer, &c->sc.out); }
+      if (c->kind == K_RAW || c->kind == K_RAWPRE) { if (c->sc.peer >= 0 && !c->stalled) drain_fd(c->sc.peer, &c->sc.out); }
       if (c->kind == K_LIB) { size_t before = ev.n; lib_loop(i); if (ev.n != before) busy = 1; }
       if (c->kind == K_FSRV) { if (c->ffd >= 0) drain_fd(c->ffd, &c->fout); lib_loop(i); }
       if (srv_open(i) && fd_readable(c->sc.cl->sock)) busy = 1;
@@ -257,7 +259,7 @@ static void finish_op_(int do_pump) {
   int i, first;
   if (do_pump) pump();
   for (i = 0; i < MAXC; i++) {
-    if (C[i].kind == K_RAW || C[i].kind == K_RAWPRE) canon_msgs("tx", i, &C[i].sc.out, 3);
+    if ((C[i].kind == K_RAW || C[i].kind == K_RAWPRE) && !C[i].stalled) canon_msgs("tx", i, &C[i].sc.out, 3);
     if (C[i].kind == K_FSRV) canon_msgs("ctx", i, &C[i].fout, 6);
   }
   if (!ev.n) vh_buf_add(&ev, "-", 1);
@@ -475,22 +477,35 @@ int main(void) {
     if (!strcmp(tok[0], "send") && n == 3) {
       blob_t *b = blob(tok[2]);
       id = atoi(tok[1]);
-      if (id < 0 || id >= MAXC || C[id].kind != K_RAW || !b || !srv_open(id) || C[id].sc.peer < 0) { puts("bad-op"); fflush(stdout); continue; }
+      if (id < 0 || id >= MAXC || C[id].kind != K_RAW || !b || !srv_open(id) || C[id].sc.peer < 0 || C[id].stalled) { puts("bad-op"); fflush(stdout); continue; }
       vh_send(&C[id].sc, b->p, b->n);
       finish_op(); continue;
     }
     if (!strcmp(tok[0], "close") && n == 2) {
       id = atoi(tok[1]);
-      if (id < 0 || id >= MAXC || (C[id].kind != K_RAW && C[id].kind != K_RAWPRE) || C[id].sc.peer < 0) { puts("bad-op"); fflush(stdout); continue; }
+      if (id < 0 || id >= MAXC || (C[id].kind != K_RAW && C[id].kind != K_RAWPRE) || C[id].sc.peer < 0 || C[id].stalled) { puts("bad-op"); fflush(stdout); continue; }
       close(C[id].sc.peer); C[id].sc.peer = -1;
       if (C[id].kind == K_RAWPRE && C[id].sc.cl) rfbProcessClientMessage(C[id].sc.cl);
+      finish_op(); continue;
+    }
+    if (!strcmp(tok[0], "stall") && n == 2) {
+      /* the peer stops reading and the pipe towards it is (made) tiny: a large message can only be
+         written in part, the rest times out after maxClientWait -> the write fails half-way
+         (the header of a classic message has been accepted by then).  What the peer got is not
+         observed any more. */
+      int sz = 1024;
+      id = atoi(tok[1]);
+      if (id < 0 || id >= MAXC || C[id].kind != K_RAW || C[id].sc.peer < 0 || !srv_open(id) || C[id].stalled) { puts("bad-op"); fflush(stdout); continue; }
+      drain_fd(C[id].sc.peer, &C[id].sc.out); vh_buf_reset(&C[id].sc.out);
+      setsockopt(C[id].sc.cl->sock, SOL_SOCKET, SO_SNDBUF, &sz, sizeof sz);
+      C[id].stalled = 1;
       finish_op(); continue;
     }
     if (!strcmp(tok[0], "kill") && n == 2) {
       /* the peer closes its end and the server does NOT get a chance to notice before the next op:
          the next write to this client fails (EPIPE) */
       id = atoi(tok[1]);
-      if (id < 0 || id >= MAXC || (C[id].kind != K_RAW && C[id].kind != K_RAWPRE) || C[id].sc.peer < 0) { puts("bad-op"); fflush(stdout); continue; }
+      if (id < 0 || id >= MAXC || (C[id].kind != K_RAW && C[id].kind != K_RAWPRE) || C[id].sc.peer < 0 || C[id].stalled) { puts("bad-op"); fflush(stdout); continue; }
       close(C[id].sc.peer); C[id].sc.peer = -1;
       finish_op_(0); continue;
     }
@@ -498,7 +513,7 @@ int main(void) {
       /* the peer sends and closes at once: replies of the handler cannot be written */
       blob_t *b = blob(tok[2]);
       id = atoi(tok[1]);
-      if (id < 0 || id >= MAXC || C[id].kind != K_RAW || !b || !srv_open(id) || C[id].sc.peer < 0) { puts("bad-op"); fflush(stdout); continue; }
+      if (id < 0 || id >= MAXC || C[id].kind != K_RAW || !b || !srv_open(id) || C[id].sc.peer < 0 || C[id].stalled) { puts("bad-op"); fflush(stdout); continue; }
       vh_send(&C[id].sc, b->p, b->n);
       close(C[id].sc.peer); C[id].sc.peer = -1;
       finish_op(); continue;
